@@ -127,6 +127,9 @@ def check_trio_directions(ctx, model, rule="C14-S3"):
                 bad.append("branch with guards %s" % (key,))
                 continue
             i, j = ask_i[0], off_i[0]
+            if i is None or j is None:
+                bad.append("branch with guards %s: pool index not a constant" % (key,))
+                continue
             ok = asg.get("ask") == i and asg.get("offer") == j and asg.get("unswapped") is not None and \
                 {asg.get("ask"), asg.get("offer"), asg.get("unswapped")} == {0, 1, 2}
             norm[(int(i), int(j))] = (asg.get("ask"), asg.get("offer"), asg.get("unswapped"))
@@ -160,6 +163,9 @@ def check_pair_directions(ctx, model, rule="C14-S3"):
                 bad.append("branch %s" % (key,))
                 continue
             j = off_i[-1]
+            if j is None:
+                bad.append("branch %s: the pool index the offer is compared with is not a constant" % (key,))
+                continue
             seen.add(int(j))
             if not (asg.get("offer") == j and asg.get("ask") is not None and {asg.get("offer"), asg.get("ask")} == {0, 1}):
                 bad.append("offer==pools[%s] assigns offer=pools[%s], ask=pools[%s]" % (j, asg.get("offer"), asg.get("ask")))
@@ -360,7 +366,9 @@ def run(ctx):
     check_fee_lookup_same_asset(ctx, model, "terraswap_pair", "C14-S1")
     check_fee_lookup_same_asset(ctx, model, "stableswap_3pool", "C14-S1")
     from .poolvalue import check_fee_deduction_all_kinds, check_raw_balance_single_consumer
+    from .poolvalue import check_reserves_net_of_fees
     for crate in ("terraswap_pair", "stableswap_3pool"):
+        check_reserves_net_of_fees(ctx, model, crate, "C14-S1")
         check_fee_deduction_all_kinds(ctx, model, crate, "C14-S1")
         check_raw_balance_single_consumer(ctx, model, crate, "C14-S1")
     check_trio_directions(ctx, model)
